@@ -47,4 +47,37 @@ import os.path as osp
 def f(p):
     return Path(p).stem, Path(p).name, Path(p).suffix, str(Path(p).parent), osp.basename(p), osp.splitext(p)[0], p.rstrip('.i')
 """),
+    (2, """
+class Bag:
+    def __init__(self, items):
+        self.items = list(items)
+    def __len__(self):
+        return len(self.items)
+class Flag:
+    def __init__(self, on):
+        self.on = on
+    def __bool__(self):
+        return self.on
+    def __len__(self):
+        return 5
+def f(k):
+    empty, full = Bag([]), Bag([1, k])
+    out = []
+    if empty:
+        out.append("empty is true")
+    if not empty:
+        out.append("empty is false")
+    if full:
+        out.append("full is true")
+    out.append("x" if empty else "y")
+    out.append(1 if (empty or full) is full else 0)
+    out.append(1 if (full and empty) is empty else 0)
+    out.append([len(b) for b in (empty, full) if b])
+    n = 0
+    while full and n < k:
+        n += 1
+    out.append(n)
+    out.append([bool(Flag(False)), bool(Flag(True)), 1 if Flag(False) else 0, len(Flag(False))])
+    return out
+"""),
 ]
